@@ -17,7 +17,9 @@ UNIT_FACTOR = {'seconds': 1, 'minutes': 60, 'hours': 3600}
 def unit_factor(unit):
     if isinstance(unit, int):
         return unit
-    return UNIT_FACTOR[unit]
+    # only the three documented spellings are units; any other string is the default (seconds) - in all three
+    # configuration sections alike
+    return UNIT_FACTOR.get(unit, 1)
 
 
 def sc_digest(sc):
@@ -187,6 +189,8 @@ def gen(seed, profile='general', big=False):
         unit = rng.randint(2, 7)
         if rng.random() < P.get('big_units', 0.15):
             unit = rng.choice([10, 12, 30, 49, 75, 90, 150, 300, 600, 900])
+    if unit == 'misspelt':
+        unit = rng.choice(['Minutes', 'HOURS', ' minutes', 'hour', 'min', 'Seconds'])
     k = unit_factor(unit)
 
     nm = pick('nm', {1: 8, 2: 22, 3: 25, 4: 20, 5: 15, 6: 10})
@@ -233,7 +237,10 @@ def gen(seed, profile='general', big=False):
 
     obs = []
     t = rng.choice([0, 0, 1, 3])
-    if P.get('monitor', 'light') == 'light' and rng.random() < P.get('late', 0.01):
+    monitor = P.get('monitor', 'light')
+    if monitor == 'light' and rng.random() < P.get('real_share', 0.07):
+        monitor = 'real'        # the real per-timestep monitor (its to_df() calls are part of the system) in a share of every profile
+    if monitor == 'light' and rng.random() < P.get('late', 0.01):
         t = rng.choice([990, 996, 999, 1000])      # the run crosses t = 1000
     names = ['o%d' % i for i in range(nobs)]
     if rng.random() < 0.3:
@@ -433,7 +440,7 @@ def gen(seed, profile='general', big=False):
           'cold': {'capacity': cold_cap, 'max_data_rate': cold_rate},
           'obs': obs, 'wfs': wfs, 'pairing': pairing, 'alg_params': ap, 'static': static,
           'machine_order': machine_order,
-          'faults': faults, 'monitor': P.get('monitor', 'light'),
+          'faults': faults, 'monitor': monitor,
           'meta': {'profile': profile, 'seed': str(seed), 'regime': regime, 'pattern': pattern}}
     return sc
 
@@ -482,7 +489,7 @@ PROFILES = {
               'buffer': {'ample': 95, 'wait': 5}, 'monitor': 'real',
               'dur': {1: 25, 2: 30, 3: 25, 4: 20}, 'unit': {'seconds': 90, 'custom': 10},
               'dists': ['normal', 'normal', 'poisson', 'uniform']},
-    'units': {'unit': {'custom': 60, 'minutes': 20, 'hours': 20}, 'hetero': 0.0, 'frac_start': 0.0, 'big_units': 0.4, 'zero_rate': 0.0,
+    'units': {'unit': {'custom': 55, 'minutes': 18, 'hours': 18, 'misspelt': 9}, 'hetero': 0.0, 'frac_start': 0.0, 'big_units': 0.4, 'zero_rate': 0.06,
               'frac_rate': 0.0, 'frac_speed': 0.0,
               'comp': {1: 40, 2: 30, 3: 20, 4: 10},
               'dur': {1: 40, 2: 35, 3: 25}, 'buffer': {'ample': 95, 'wait': 5},
